@@ -20,9 +20,9 @@ type randGen struct {
 }
 
 var typeNamesFor = map[string][]string{
-	"Object":   {"Article", "Audio", "Document", "Event", "Image", "Note", "Page", "Video", "Object"},
-	"Actor":    {"Application", "Group", "Organization", "Person", "Service", "Actor"},
-	"Activity": {"Accept", "Add", "Announce", "Block", "Create", "Delete", "Dislike", "Flag", "Follow", "Ignore", "Invite", "Join", "Leave", "Like", "Listen", "Move", "Offer", "Reject", "Read", "Remove", "TentativeReject", "TentativeAccept", "Undo", "Update", "View", "Activity"},
+	"Object":               {"Article", "Audio", "Document", "Event", "Image", "Note", "Page", "Video", "Object"},
+	"Actor":                {"Application", "Group", "Organization", "Person", "Service", "Actor"},
+	"Activity":             {"Accept", "Add", "Announce", "Block", "Create", "Delete", "Dislike", "Flag", "Follow", "Ignore", "Invite", "Join", "Leave", "Like", "Listen", "Move", "Offer", "Reject", "Read", "Remove", "TentativeReject", "TentativeAccept", "Undo", "Update", "View", "Activity"},
 	"IntransitiveActivity": {"Arrive", "Travel", "IntransitiveActivity"},
 	"Question":             {"Question"}, "Collection": {"Collection"}, "CollectionPage": {"CollectionPage"},
 	"OrderedCollection": {"OrderedCollection"}, "OrderedCollectionPage": {"OrderedCollectionPage"},
